@@ -1213,4 +1213,198 @@ def rule_valid(ctx) -> RuleResult:
     return res
 
 
-RULES = [rule_inv, rule_collide, rule_flat, rule_update, rule_cover, rule_shadow, rule_enable, rule_total, rule_valid]
+# ------------------------------------------------------------------------------------------------ SETVALUE / FRESH / ORDER
+def rule_setvalue(ctx) -> RuleResult:
+    res = RuleResult(
+        "C14.SETVALUE",
+        "C14",
+        "InputFile.set_data_value(key, value) puts the value into BOTH views of the input file on every normal path: the flat data "
+        "cache (self.data[key] = value) and the form (update_ui_values / a store into the form) — write_ui_json re-synchronises "
+        "every form from the cache, so a value that reached only the form is overwritten by the stale cache entry at the next write",
+        floor=2,
+    )
+    from ..kinds import reach
+
+    p = ctx.p
+    fn = p.cls("InputFile").methods.get("set_data_value")
+    if fn is None:
+        raise AnalysisError("C14: anchor InputFile.set_data_value not found")
+    v = _view(ctx, fn)
+    flow = flow_of(ctx, v)
+    g = flow.g
+    sn = v.self_name
+    ps = [x for x in v.params if x != sn]
+    if len(ps) < 2:
+        raise AnalysisError(f"{fn.where}: set_data_value does not take (key, value)")
+    keyp, valp = ps[0], ps[1]
+
+    def is_val(e, at):
+        return unparse(flow.resolve(e, at)) == valp
+
+    def is_key(e, at):
+        return unparse(flow.resolve(e, at)) == keyp
+
+    def is_cache(e, at):
+        return unparse(flow.resolve(e, at)) in (f"{sn}.data", f"{sn}._data")
+
+    def cache_store(n):
+        if n.kind != "stmt":
+            return False
+        a = n.ast
+        if isinstance(a, ast.Assign):
+            return any(isinstance(t, ast.Subscript) and is_cache(t.value, n) and is_key(t.slice, n) for t in a.targets) and is_val(a.value, n)
+        if isinstance(a, ast.Expr) and isinstance(a.value, ast.Call) and isinstance(a.value.func, ast.Attribute) and is_cache(a.value.func.value, n):
+            c = a.value
+            if c.func.attr == "__setitem__" and len(c.args) == 2:
+                return is_key(c.args[0], n) and is_val(c.args[1], n)
+            if c.func.attr == "update":
+                return any(isinstance(d, ast.Dict) and any(kk is not None and is_key(kk, n) and is_val(vv, n) for kk, vv in zip(d.keys, d.values))
+                           for d in [flow.resolve(x, n) for x in c.args])
+        return False
+
+    def form_store(n):
+        for part in Flow._parts(n):
+            for c in ast.walk(part):
+                if isinstance(c, ast.Call) and call_name(c) == "update_ui_values" and c.args:
+                    d = flow.resolve(c.args[0], n)
+                    if isinstance(d, ast.Dict) and any(kk is not None and unparse(kk) == keyp and unparse(vv) == valp for kk, vv in zip(d.keys, d.values)):
+                        return True
+        if n.kind == "stmt" and isinstance(n.ast, ast.Assign) and is_val(n.ast.value, n):
+            for t in n.ast.targets:  # self.ui_json[key][member] = value
+                if isinstance(t, ast.Subscript) and isinstance(t.value, ast.Subscript) and "ui_json" in unparse(flow.resolve(t.value.value, n)) \
+                        and is_key(t.value.slice, n):
+                    return True
+        return False
+
+    for what, pred, construct, msg in (
+        ("the data cache", cache_store, "the value does not reach the data cache on every normal path",
+         "set_data_value updates the form but leaves self.data[key] stale: write_ui_json starts by re-synchronising the forms from the cache and "
+         "writes the OLD value and enabled state"),
+        ("the form", form_store, "the value does not reach the form on every normal path",
+         "set_data_value updates the cache but not the form (no update_ui_values for the key): enabled / isValue / value of the form lag behind the data"),
+    ):
+        nodes = [n for n in g.nodes if pred(n)]
+        seen = reach(g, [m for m, lab in g.entry.succ], avoid=lambda n, nodes=nodes: n in nodes)
+        ok = bool(nodes) and g.exit not in seen
+        res.inst(f"set_data_value: {len(nodes)} store(s) of the value into {what}; a normal path avoids them: {g.exit in seen}", nontrivial=True, ok=ok)
+        if not ok:
+            res.find("InputFile", "set_data_value", construct, fn.where, msg)
+    return res
+
+
+_MUTABLE_CALLS = {"dict", "list", "set", "defaultdict", "OrderedDict"}
+_COPIERS = {"dict", "list", "set", "copy", "deepcopy", "tuple", "frozenset"}
+
+
+def _shared_container(p, fn, e):
+    """Name of the module- / class-level mutable container the expression denotes BY REFERENCE (not a copy of it), else None."""
+    def mutable(v):
+        return isinstance(v, (ast.Dict, ast.List, ast.Set, ast.DictComp, ast.ListComp, ast.SetComp)) or \
+            (isinstance(v, ast.Call) and isinstance(v.func, ast.Name) and v.func.id in _MUTABLE_CALLS)
+
+    if isinstance(e, ast.Name) and e.id not in fn.params:
+        r = p.resolve_name(fn.module, e.id)
+        if r and r[0] == "assign" and mutable(r[1][1]):
+            return e.id
+    if isinstance(e, ast.Attribute) and isinstance(e.value, ast.Name):
+        owner = None
+        if fn.cls is not None and e.value.id in ("self", "cls", fn.self_name):
+            owner = fn.cls
+        else:
+            r = p.resolve_name(fn.module, e.value.id)
+            owner = r[1] if r and r[0] == "class" else None
+        if owner is not None:
+            m = owner.lookup(e.attr)
+            if m and m[1] == "assign" and m[2] is not None and mutable(m[2]):
+                return f"{m[0].name}.{e.attr}"
+    if isinstance(e, ast.Call) and isinstance(e.func, ast.Attribute) and e.func.attr in ("get", "setdefault", "pop") and len(e.args) == 2:
+        return _shared_container(p, fn, e.args[1])  # d.get(k, <shared default>)
+    if isinstance(e, ast.IfExp):
+        return _shared_container(p, fn, e.body) or _shared_container(p, fn, e.orelse)
+    if isinstance(e, ast.BoolOp):
+        for x in e.values:
+            nm = _shared_container(p, fn, x)
+            if nm:
+                return nm
+    return None
+
+
+def rule_fresh(ctx) -> RuleResult:
+    res = RuleResult(
+        "C14.FRESH",
+        "C14",
+        "what a property getter of InputFile installs on the instance or hands out is never a module-level or class-level mutable "
+        "container by reference: the options / rules dictionaries are updated in place (the data getter switches "
+        "validation_options['update_enabled'] off and on), a default shared by reference would carry one input file's state into "
+        "how every other input file writes its enabled flags",
+        floor=2,
+    )
+    p = ctx.p
+    IF = p.cls("InputFile")
+    if "validation_options" not in IF.props or IF.props["validation_options"].getter is None:
+        raise AnalysisError("C14: anchor InputFile.validation_options getter not found")
+    for name, pr in sorted(IF.props.items()):
+        if pr.getter is None or pr.getter.cls is not IF:
+            continue
+        # hoisted constants are NOT substituted here: whether the object is the hoisted one or a copy of it is the question
+        for f0 in raw_closure(p, pr.getter):
+            f = ctx.view(f0, inline=False, consts=False) if hasattr(ctx, "view") else f0
+            flow = flow_of(ctx, f)
+            sn = f.self_name
+            for n in flow.g.nodes:
+                vals = []
+                if n.kind == "stmt" and isinstance(n.ast, (ast.Assign, ast.AnnAssign)) and n.ast.value is not None:
+                    tgs = n.ast.targets if isinstance(n.ast, ast.Assign) else [n.ast.target]
+                    if any(isinstance(t, ast.Attribute) and isinstance(t.value, ast.Name) and t.value.id == sn for t in tgs):
+                        vals.append(n.ast.value)
+                elif n.kind == "return" and n.ast is not None:
+                    vals.append(n.ast)
+                for val in vals:
+                    nm = _shared_container(p, f, flow.resolve(val, n))
+                    res.inst(f"InputFile.{name} ({f.qualname}:{n.lineno}): `{unparse(val)[:40]}` is not a shared mutable default", nontrivial=True, ok=nm is None)
+                    if nm:
+                        res.find("InputFile", name, f"the shared container `{nm}` is handed out by reference", f"{f.module.relpath}:{n.lineno}",
+                                 f"`{nm}` is created once (module / class level) and becomes the instance's {name} without a copy: an in-place update on one "
+                                 "InputFile (validation_options['update_enabled'] = False) changes how every other InputFile writes its enabled states")
+    return res
+
+
+def rule_order(ctx) -> RuleResult:
+    res = RuleResult(
+        "C14.ORDER",
+        "C14",
+        "write_ui_json writes the parameters in the order of ui_json: json.dump is not asked to sort the keys and what it is given is "
+        "not re-ordered (sorted / reversed) — update_ui_values and set_enabled act in dictionary order (a group switch overwrites the "
+        "flags of its members), so a file written in another order yields other enabled states at the next write",
+        floor=1,
+    )
+    p = ctx.p
+    w = p.cls("InputFile").methods.get("write_ui_json")
+    if w is None:
+        raise AnalysisError("C14: anchor InputFile.write_ui_json not found")
+    n = 0
+    for f in closure(ctx, w):
+        flow = flow_of(ctx, f)
+        for c in ast.walk(f.node):
+            if not (isinstance(c, ast.Call) and call_name(c) in ("dump", "dumps") and c.args and (isinstance(c.func, ast.Name) or unparse(c.func.value) == "json")):
+                continue
+            n += 1
+            at = flow.node_of(c)
+            sk = next((k.value for k in c.keywords if k.arg == "sort_keys"), None)
+            skr = flow.resolve(sk, at) if sk is not None and at is not None else sk
+            sorts = sk is not None and not (isinstance(skr, ast.Constant) and not skr.value)
+            arg = flow.resolve(c.args[0], at) if at is not None else c.args[0]
+            reorders = any(isinstance(x, ast.Call) and isinstance(x.func, ast.Name) and x.func.id in ("sorted", "reversed") for x in ast.walk(arg))
+            ok = not (sorts or reorders)
+            res.inst(f"{f.qualname}:{c.lineno} json.{call_name(c)} keeps the order of the parameters", nontrivial=True, ok=ok)
+            if not ok:
+                res.find("InputFile", "write_ui_json", "the parameters are written in another order than they have in ui_json", f"{f.module.relpath}:{c.lineno}",
+                         "the file lists the parameters sorted / re-ordered: the input file read from it iterates in that order, and because a group switch "
+                         "handled after an optional member overwrites the member's enabled flag, the next write gives other enabled states and values")
+    if not n:
+        raise AnalysisError(f"{w.where}: no json.dump call found in write_ui_json")
+    return res
+
+
+RULES = [rule_inv, rule_collide, rule_flat, rule_update, rule_cover, rule_shadow, rule_enable, rule_total, rule_valid,
+         rule_setvalue, rule_fresh, rule_order]
